@@ -316,13 +316,29 @@ pub fn run(ctx: &Ctx, rep: &mut Report) {
                 let e2 = normref::prolonged(&e1, &marks, &repl);
                 let e3 = normref::yomigana(&e2, &is_kanji, &is_kana, &lbr, &rbr, maxy);
                 rep.eval();
-                if let Ok(Ok(())) = guard(|| t.run(&full)) {
-                    rep.count("full_stack_normalisations_checked", 1);
-                    if t.normalized != e3 {
-                        rep.violation("normalisation_stack", "do_tokenize", &format!("input {:?}: expected {:?}, analysed text is {:?}", clip(&full, 80), clip(&e3, 80), clip(&t.normalized, 80)), "", scen(&full, "stack"));
+                // now and then the same tokenizer is first given an input whose rewritten form is far too long (refused):
+                // how the next text is rewritten does not depend on that
+                if rng.chance(1, 6) {
+                    let long = "\u{fdfa}".repeat(3000);
+                    if let Ok(Err(_)) = guard(|| t.run(&long)) {
+                        rep.count("rejected_inputs_before_a_stack_check", 1);
                     }
-                } else {
-                    t = Tok::new(&world.dict, Mode::C);
+                }
+                match guard(|| t.run(&full)) {
+                    Ok(Ok(())) => {
+                        rep.count("full_stack_normalisations_checked", 1);
+                        if t.normalized != e3 {
+                            rep.violation("normalisation_stack", "do_tokenize", &format!("input {:?}: expected {:?}, analysed text is {:?}", clip(&full, 80), clip(&e3, 80), clip(&t.normalized, 80)), "", scen(&full, "stack"));
+                        }
+                    }
+                    Ok(Err(e)) => {
+                        // a short input is never too long, whatever was analysed before
+                        if full.len() < 2000 && format!("{:?}", e).contains("InputTooLong") {
+                            rep.violation("normalisation_stack", "do_tokenize", &format!("input {:?} ({} bytes) is refused as too long", clip(&full, 80), full.len()), "", scen(&full, "stack"));
+                            t = Tok::new(&world.dict, Mode::C);
+                        }
+                    }
+                    Err(_) => t = Tok::new(&world.dict, Mode::C),
                 }
             }
         }
